@@ -214,6 +214,9 @@ def family(t, sd):
               'min x_0 + x_1 + z\ns.t.\n    x_i >= lo[i] for i in 0..2\n    z >= 0.5\nwhere\n    let lo = [0.5, 1.5]\ndefine\n    x_i as Real(lo[i]) for i in 0..2\n    z as NonNegativeReal(0.25, 10)',
               'min a + b + c\ns.t.\n    a + b + c >= 3\ndefine\n    a, b as Real(1)\n    c as NonNegativeReal(0.5)',
               'max a\ns.t.\n    a <= sum((u, v, w) in edges(G)) { w }\nwhere\n    let G = Graph {\n        A -> [B: 2.5, C: 1],\n        B -> [C],\n        C\n    }\ndefine\n    a as IntegerRange(0 - 2, 2 * 5)']
+    # graph literals: weights with many decimals and tiny weights (the weight is a number of the model)
+    extra += ['max a\ns.t.\n    a <= w for (u, v, w) in edges(G)\nwhere\n    let G = Graph {\n        A -> [B: 1.2345678, C: 0.0000004],\n        B -> [C: 12345.678901]\n    }\ndefine\n    a as Real(-5, 50000)',
+              'min sum((u, v, w) in edges(G)) { w * x_u }\ns.t.\n    sum(u in nodes(G)) { x_u } >= 1\nwhere\n    let G = Graph {\n        A -> [B: 0.30000000000000004, C],\n        B -> [A: 2],\n        C\n    }\ndefine\n    x_u as Boolean for u in nodes(G)']
     # strict comparisons, on integer / Boolean operands (lowered one unit further in) and on real ones (kept strict)
     extra += ['min x + y\ns.t.\n    x > -1.5\n    y < 3\n    c: x + y > 0.5\n    p < q\ndefine\n    x as IntegerRange(-4, 4)\n    y as Real(-2, 5)\n    p, q as Boolean',
               'max a - b\ns.t.\n    a - (b - 1) < 2\n    -(a) > -3\n    abs{ a - b } < 2\ndefine\n    a, b as IntegerRange(-3, 3)']
